@@ -647,6 +647,24 @@ func runSeq(c *fw.Ctx, scope string, order int64, bi, bufSize int, frames [][]by
 			}
 		}
 	}
+	// addresses handed to the caller earlier must stay what they were when returned, whatever is read later
+	type keptAddr struct {
+		a     net.Addr
+		want  string
+		k     int
+		class string
+	}
+	var kept []keptAddr
+	recheck := func() {
+		for i, ka := range kept {
+			if got := ka.a.String(); got != ka.want {
+				rep("source-address-changed-later", ka.class, fmt.Sprintf("address returned for frame #%d now reads %s", ka.k, got), "still "+ka.want,
+					"a source address returned by an earlier ReadFrom was overwritten by a later read")
+				kept = append(kept[:i:i], kept[i+1:]...)
+				return
+			}
+		}
+	}
 	for {
 		p0 := s.pos
 		b := make([]byte, bufSize)
@@ -658,6 +676,7 @@ func runSeq(c *fw.Ctx, scope string, order int64, bi, bufSize int, frames [][]by
 		var err error
 		pv, st := fw.Safe(func() { n, addr, err = conn.ReadFrom(b) })
 		p1 := s.pos
+		recheck()
 		if pv != nil {
 			class, fr := "no-frame", ""
 			if p1 > 0 {
@@ -713,6 +732,9 @@ func runSeq(c *fw.Ctx, scope string, order int64, bi, bufSize int, frames [][]by
 		}
 		if addr == nil || addr.String() != e.src {
 			rep("source-address", e.class, fmt.Sprintf("frame #%d %s: from=%v", k, fw.HexShort(frames[k]), addr), "from="+e.src, "returned address is not the frame's source address:port")
+		}
+		if addr != nil {
+			kept = append(kept, keptAddr{addr, addr.String(), k, e.class})
 		}
 	}
 }
